@@ -6,6 +6,7 @@ package c18
 // whole process; the plan file doubles as the crash journal / replay file.
 
 import (
+	"bufio"
 	"bytes"
 	"context"
 	"encoding/json"
@@ -19,6 +20,7 @@ import (
 	"regexp"
 	"strconv"
 	"strings"
+	"sync"
 	"sync/atomic"
 	"testing"
 	"time"
@@ -52,6 +54,7 @@ type Plan struct {
 	Config  string            `json:"config"` // JSON text with @@DIR@@ @@ECHO@@ @@DNS@@ @@P<i>@@ placeholders
 	Files   map[string]string `json:"files,omitempty"`
 	Ports   int               `json:"ports"`
+	Listen  []string          `json:"listen"` // "tcp:@@P0@@" / "udp:@@P0@@": sockets that must be bound before the script starts
 	Probes  []Probe           `json:"probes"`
 	StopMax int               `json:"stopMaxMs"`
 }
@@ -196,6 +199,14 @@ func runOnce(p *Plan, env *netEnv, res *Result) (retry bool) {
 		return sb.String()
 	}
 
+	// Services start one after another; wait until every listener is bound so that a chained
+	// upstream is not dialled before it listens (observed through /proc/net, no traffic involved).
+	var want []string
+	for _, l := range p.Listen {
+		want = append(want, sub(l))
+	}
+	waitBound(want, 10*time.Second, &finished)
+
 	for i := range p.Probes {
 		if finished.Load() {
 			break
@@ -250,6 +261,54 @@ func runOnce(p *Plan, env *netEnv, res *Result) (retry bool) {
 	return false
 }
 
+// boundPorts returns the local ports of listening TCP sockets / bound UDP sockets.
+func boundPorts(proto string) (map[int]bool, error) {
+	b, err := os.ReadFile("/proc/net/" + proto)
+	if err != nil {
+		return nil, err
+	}
+	out := map[int]bool{}
+	for i, line := range strings.Split(string(b), "\n") {
+		f := strings.Fields(line)
+		if i == 0 || len(f) < 4 {
+			continue
+		}
+		if proto == "tcp" && f[3] != "0A" {
+			continue
+		}
+		if j := strings.LastIndexByte(f[1], ':'); j >= 0 {
+			if port, err := strconv.ParseUint(f[1][j+1:], 16, 16); err == nil {
+				out[int(port)] = true
+			}
+		}
+	}
+	return out, nil
+}
+
+func waitBound(want []string, total time.Duration, finished *atomic.Bool) {
+	deadline := time.Now().Add(total)
+	for {
+		tcp, err1 := boundPorts("tcp")
+		udp, err2 := boundPorts("udp")
+		if err1 != nil || err2 != nil {
+			time.Sleep(500 * time.Millisecond)
+			return
+		}
+		missing := false
+		for _, wnt := range want {
+			proto, portStr, _ := strings.Cut(wnt, ":")
+			port, _ := strconv.Atoi(portStr)
+			if (proto == "tcp" && !tcp[port]) || (proto == "udp" && !udp[port]) {
+				missing = true
+			}
+		}
+		if !missing || finished.Load() || time.Now().After(deadline) {
+			return
+		}
+		time.Sleep(5 * time.Millisecond)
+	}
+}
+
 func apiProbe(p *Probe, addr string) probeResult {
 	t0 := time.Now()
 	r := probeResult{Kind: p.Kind, Addr: addr}
@@ -281,7 +340,7 @@ func apiProbe(p *Probe, addr string) probeResult {
 // evaluate turns a result into a violation string ("" = none). It only states what the property
 // demands of an accepted configuration: no crash (handled by the caller), Stop returns, and the
 // traffic the script expected to flow did flow (otherwise the case would not count as exercised).
-func evaluate(p *Plan, r *Result) (violation string, exercised bool, labels []string) {
+func evaluate(p *Plan, r *Result, tolerateRejectEOF bool) (violation string, exercised bool, labels []string) {
 	if r.LoadErr != "" {
 		return "SIG=C18/child-load-differs child rejected a configuration the parent accepted: " + r.LoadErr, false, nil
 	}
@@ -306,7 +365,9 @@ func evaluate(p *Plan, r *Result) (violation string, exercised bool, labels []st
 		}
 		if pp.Kind == "reject" {
 			labels = append(labels, "reject-outcome:"+pr.Outcome)
-			if pp.ExpectRST && pr.Outcome == "eof" {
+			if pp.ExpectRST && pr.Outcome == "eof" && tolerateRejectEOF {
+				labels = append(labels, "known-reject-eof")
+			} else if pp.ExpectRST && pr.Outcome == "eof" {
 				return fmt.Sprintf("SIG=C18/reject-policy-default-mismatch server=%s: omitted/empty/\"ForceReset\" rejectPolicy must reset the connection (documented default), but it was closed gracefully (FIN)", pp.Server), false, labels
 			}
 		}
@@ -353,16 +414,38 @@ func workDir() string {
 	return os.TempDir()
 }
 
-// runChild journals the plan and executes it in a child process.
-func runChild(p *Plan) (*childOutcome, error) {
+// writeJournal stores the plan where the driver looks for crash journals.
+func writeJournal(p *Plan) (string, error) {
 	b, err := json.MarshalIndent(p, "", " ")
 	if err != nil {
-		return nil, err
+		return "", err
 	}
 	journal := filepath.Join(workDir(), fmt.Sprintf("journal-c18-%d-%d.json", os.Getpid(), journalSeq.Add(1)))
-	if err := os.WriteFile(journal, b, 0o644); err != nil {
-		return nil, err
+	return journal, os.WriteFile(journal, b, 0o644)
+}
+
+func parseResult(out string) *Result {
+	i := strings.LastIndex(out, "C18RESULT ")
+	if i < 0 {
+		return nil
 	}
+	line := out[i+len("C18RESULT "):]
+	if j := strings.IndexByte(line, '\n'); j >= 0 {
+		line = line[:j]
+	}
+	var r Result
+	if json.Unmarshal([]byte(line), &r) != nil {
+		return nil
+	}
+	return &r
+}
+
+func isCrash(out string) bool {
+	return panicLine.MatchString(out) && !strings.Contains(out, "panic: test timed out")
+}
+
+// runOneShot executes the journaled plan in a fresh child process.
+func runOneShot(journal string) (*childOutcome, error) {
 	ctx, cancel := context.WithTimeout(context.Background(), 150*time.Second)
 	defer cancel()
 	cmd := exec.CommandContext(ctx, os.Args[0], "-test.run", "^TestReplayPlan$", "-test.count=1", "-test.timeout", "140s")
@@ -370,33 +453,201 @@ func runChild(p *Plan) (*childOutcome, error) {
 	var out bytes.Buffer
 	cmd.Stdout, cmd.Stderr = &out, &out
 	runErr := cmd.Run()
-	o := &childOutcome{Output: out.String(), Journal: journal}
-	if i := strings.Index(o.Output, "C18RESULT "); i >= 0 {
-		line := o.Output[i+len("C18RESULT "):]
-		if j := strings.IndexByte(line, '\n'); j >= 0 {
-			line = line[:j]
-		}
-		var r Result
-		if json.Unmarshal([]byte(line), &r) == nil {
-			o.Result = &r
-		}
-	}
+	o := &childOutcome{Output: out.String(), Journal: journal, Result: parseResult(out.String())}
 	if o.Result != nil && runErr == nil {
-		os.Remove(journal)
 		return o, nil
 	}
-	if panicLine.MatchString(o.Output) && !strings.Contains(o.Output, "panic: test timed out") {
+	if isCrash(o.Output) {
 		o.Crashed = true
 		o.Sig = crashSignature(o.Output)
-		return o, nil // journal stays: it is the replay file
+		return o, nil
 	}
 	if errors.Is(ctx.Err(), context.DeadlineExceeded) || strings.Contains(o.Output, "panic: test timed out") {
 		o.Crashed = true
 		o.Sig = "C18/child-hang"
 		return o, nil
 	}
-	os.Remove(journal)
 	return o, fmt.Errorf("child failed without a result: %v\n%s", runErr, tailStr(o.Output, 2000))
+}
+
+// planServer is a long-lived child that executes plans one after another (process start-up is
+// the dominant cost of a one-shot child). If it dies, the plan that was running is re-executed in
+// a fresh one-shot child to attribute the crash.
+type planServer struct {
+	cmd    *exec.Cmd
+	stdin  io.WriteCloser
+	lines  chan string
+	stderr *syncBuffer
+	done   chan struct{}
+}
+
+type syncBuffer struct {
+	mu sync.Mutex
+	b  bytes.Buffer
+}
+
+func (s *syncBuffer) Write(p []byte) (int, error) {
+	s.mu.Lock()
+	defer s.mu.Unlock()
+	return s.b.Write(p)
+}
+
+func (s *syncBuffer) String() string {
+	s.mu.Lock()
+	defer s.mu.Unlock()
+	return s.b.String()
+}
+
+var (
+	serverMu   sync.Mutex
+	server     *planServer
+	lastPlan   *Plan
+	oneShotEnv = os.Getenv("VERIF_C18_ONESHOT") != ""
+)
+
+func startPlanServer() (*planServer, error) {
+	cmd := exec.Command(os.Args[0], "-test.run", "^TestPlanServer$", "-test.count=1", "-test.timeout", "0")
+	cmd.Env = append(os.Environ(), "C18_SERVER=1", "VERIF_EVDIR=", "VERIF_REPLAY=")
+	stdin, err := cmd.StdinPipe()
+	if err != nil {
+		return nil, err
+	}
+	stdout, err := cmd.StdoutPipe()
+	if err != nil {
+		return nil, err
+	}
+	ps := &planServer{cmd: cmd, stdin: stdin, lines: make(chan string, 16), stderr: &syncBuffer{}, done: make(chan struct{})}
+	cmd.Stderr = ps.stderr
+	if err := cmd.Start(); err != nil {
+		return nil, err
+	}
+	go func() {
+		sc := bufio.NewScanner(stdout)
+		sc.Buffer(make([]byte, 1<<20), 1<<24)
+		for sc.Scan() {
+			if strings.HasPrefix(sc.Text(), "C18RESULT ") {
+				ps.lines <- sc.Text()
+			} else {
+				ps.stderr.Write([]byte(sc.Text() + "\n"))
+			}
+		}
+		cmd.Wait()
+		close(ps.done)
+	}()
+	return ps, nil
+}
+
+func (ps *planServer) kill() {
+	ps.stdin.Close()
+	select {
+	case <-ps.done:
+	case <-time.After(2 * time.Second):
+		ps.cmd.Process.Kill()
+		<-ps.done
+	}
+}
+
+func stopPlanServer() {
+	serverMu.Lock()
+	defer serverMu.Unlock()
+	if server != nil {
+		server.kill()
+		server = nil
+	}
+}
+
+// runChild journals the plan and executes it in a child process.
+func runChild(p *Plan) (*childOutcome, error) {
+	journal, err := writeJournal(p)
+	if err != nil {
+		return nil, err
+	}
+	if oneShotEnv {
+		o, err := runOneShot(journal)
+		if err != nil || !o.Crashed {
+			os.Remove(journal)
+		}
+		return o, err
+	}
+	serverMu.Lock()
+	defer serverMu.Unlock()
+	if server == nil {
+		if server, err = startPlanServer(); err != nil {
+			return nil, err
+		}
+	}
+	prev := lastPlan
+	lastPlan = p
+	if _, err := io.WriteString(server.stdin, journal+"\n"); err == nil {
+		select {
+		case line := <-server.lines:
+			if r := parseResult(line + "\n"); r != nil {
+				os.Remove(journal)
+				return &childOutcome{Result: r, Journal: journal}, nil
+			}
+		case <-server.done:
+		case <-time.After(150 * time.Second):
+			server.cmd.Process.Kill()
+			<-server.done
+			out := server.stderr.String()
+			server = nil
+			return &childOutcome{Crashed: true, Sig: "C18/child-hang", Output: out, Journal: journal}, nil
+		}
+	}
+	// the server died while this plan was running
+	<-server.done
+	out := server.stderr.String()
+	server = nil
+	for range 2 {
+		o, err := runOneShot(journal)
+		if err == nil && o.Crashed {
+			return o, nil // journal stays: it is the replay file
+		}
+	}
+	if prev != nil {
+		// a goroutine left behind by the previous plan may have been the one that died
+		if pj, err := writeJournal(prev); err == nil {
+			if o, err := runOneShot(pj); err == nil && o.Crashed {
+				os.Remove(journal)
+				o.Output = "(attributed to the plan executed before the one during which the process died)\n" + o.Output
+				return o, nil
+			}
+			os.Remove(pj)
+		}
+	}
+	if isCrash(out) {
+		return &childOutcome{Crashed: true, Sig: crashSignature(out) + "/not-reproduced-in-isolation", Output: out, Journal: journal}, nil
+	}
+	os.Remove(journal)
+	return nil, fmt.Errorf("plan server died without a crash message:\n%s", tailStr(out, 2000))
+}
+
+// TestPlanServer is the long-lived child: it reads journal paths from stdin and prints one
+// result line per plan.
+func TestPlanServer(t *testing.T) {
+	if os.Getenv("C18_SERVER") == "" {
+		t.Skip("child mode only")
+	}
+	sc := bufio.NewScanner(os.Stdin)
+	for sc.Scan() {
+		path := strings.TrimSpace(sc.Text())
+		if path == "" {
+			continue
+		}
+		b, err := os.ReadFile(path)
+		var p Plan
+		if err == nil {
+			err = json.Unmarshal(b, &p)
+		}
+		var r Result
+		if err != nil {
+			r.LoadErr = "harness: " + err.Error()
+		} else {
+			r = runPlan(&p)
+		}
+		out, _ := json.Marshal(r)
+		fmt.Printf("C18RESULT %s\n", out)
+	}
 }
 
 func tailStr(s string, n int) string {
@@ -427,7 +678,8 @@ func TestReplayPlan(t *testing.T) {
 	if os.Getenv("C18_CHILD") != "" {
 		return // the parent evaluates
 	}
-	if v, _, _ := evaluate(&p, &r); v != "" {
+	_, tolerate := known(sigReject)
+	if v, _, _ := evaluate(&p, &r, tolerate); v != "" {
 		t.Fatalf("VERIF-VIOLATION %s\nplan=%s", v, path)
 	}
 }
